@@ -148,7 +148,7 @@ pub fn diff_date(res: &Date, day: i64) -> Result<DateDiff, Panic> {
 
 // ---- Time -----------------------------------------------------------------------------------------
 
-/// What the API says about one Time value.
+/// What the API says about one Time value (one entry per read-out route).
 #[derive(Clone, Debug, PartialEq)]
 pub struct TObs {
     pub as_nanos: u64,
@@ -156,11 +156,16 @@ pub struct TObs {
     pub hms: (u32, u32, u32),
     /// local getters: hour minute second milli micro nano
     pub local: (u32, u32, u32, u32, u32, u32),
+    /// routes masked (bit 0 as_hms, bits 1..=6 the six getters): see model::instant::Obs::masked
+    pub masked: u8,
 }
+
+pub const TROUTE_NAMES: [&str; 7] = ["Time::as_hms", "Time::hour", "Time::minute", "Time::second", "Time::milli", "Time::micro", "Time::nano"];
+pub static TROUTE_MASKED: [std::sync::atomic::AtomicU64; 7] = [const { std::sync::atomic::AtomicU64::new(0) }; 7];
 
 pub fn tobserve(t: &astrolabe::Time) -> TObs {
     use astrolabe::TimeUtilities;
-    TObs { as_nanos: t.as_nanos(), off: time_offset_secs(t), hms: t.as_hms(), local: (t.hour(), t.minute(), t.second(), t.milli(), t.micro(), t.nano()) }
+    TObs { as_nanos: t.as_nanos(), off: time_offset_secs(t), hms: t.as_hms(), local: (t.hour(), t.minute(), t.second(), t.milli(), t.micro(), t.nano()), masked: 0 }
 }
 
 pub fn model_tobserve(n: u64, off: i32) -> TObs {
@@ -169,20 +174,62 @@ pub fn model_tobserve(n: u64, off: i32) -> TObs {
     let s = (l / 1_000_000_000) as u32;
     let sub = (l % 1_000_000_000) as u32;
     let us = (n / 1_000_000_000) as u32;
-    TObs { as_nanos: n, off: Some(off), hms: (us / 3600, us / 60 % 60, us % 60), local: (s / 3600, s / 60 % 60, s % 60, sub / 1_000_000, sub / 1_000, sub) }
+    TObs { as_nanos: n, off: Some(off), hms: (us / 3600, us / 60 % 60, us % 60), local: (s / 3600, s / 60 % 60, s % 60, sub / 1_000_000, sub / 1_000, sub), masked: 0 }
 }
 
-/// Time of day `n` ns (UTC) carrying `off`, only if every read-out agrees with the model there.
+impl TObs {
+    fn arr(&self) -> [u32; 6] {
+        [self.local.0, self.local.1, self.local.2, self.local.3, self.local.4, self.local.5]
+    }
+    fn mismatch_bits(&self, m: &TObs) -> u8 {
+        let mut b = 0u8;
+        if self.hms != m.hms {
+            b |= 1;
+        }
+        let (a, c) = (self.arr(), m.arr());
+        for k in 0..6 {
+            if a[k] != c[k] {
+                b |= 1 << (k + 1);
+            }
+        }
+        b
+    }
+    fn neutralize(&mut self, masked: u8) {
+        self.masked = masked;
+        if masked & 1 != 0 {
+            self.hms = (0, 0, 0);
+        }
+        let mut a = self.arr();
+        for k in 0..6 {
+            if masked & (1 << (k + 1)) != 0 {
+                a[k] = 0;
+            }
+        }
+        self.local = (a[0], a[1], a[2], a[3], a[4], a[5]);
+    }
+}
+
+/// Time of day `n` ns (UTC) carrying `off`, if it is trustworthy there: the stored nanoseconds and the offset read
+/// back (the structural routes); a getter or as_hms that disagrees with the model at this very value is masked.
 pub fn sane_time(n: u64, off: i32) -> Option<(astrolabe::Time, TObs)> {
     use astrolabe::OffsetUtilities;
     trap(|| {
         let t = astrolabe::Time::from_nanos(n).ok()?.set_offset(astrolabe::Offset::Fixed(off));
-        let o = tobserve(&t);
-        if o == model_tobserve(n, off) {
-            Some((t, o))
-        } else {
-            None
+        let mut o = tobserve(&t);
+        let m = model_tobserve(n, off);
+        if o.as_nanos != m.as_nanos || o.off != m.off {
+            return None;
         }
+        let bits = o.mismatch_bits(&m);
+        if bits != 0 {
+            for k in 0..7 {
+                if bits & (1 << k) != 0 {
+                    TROUTE_MASKED[k].fetch_add(1, std::sync::atomic::Ordering::Relaxed);
+                }
+            }
+            o.neutralize(bits);
+        }
+        Some((t, o))
     })
     .ok()
     .flatten()
@@ -196,7 +243,8 @@ pub enum TDiff {
 
 pub fn diff_time(res: &astrolabe::Time, n: u64, off: i32) -> Result<TDiff, Panic> {
     let Some((_, e)) = sane_time(n, off) else { return Ok(TDiff::Skip) };
-    let g = trap(|| tobserve(res))?;
+    let mut g = trap(|| tobserve(res))?;
+    g.neutralize(e.masked);
     Ok(if g == e { TDiff::Same } else { TDiff::Differs(g, e) })
 }
 
